@@ -601,6 +601,11 @@ func VerifC18RoundTrip() {
 		return
 	}
 	b := NewBitmap()
+	if vsym.Param("reuse") == 1 {
+		// a receiver that already holds values from an earlier decode
+		b.Add(5)
+		b.Add(1<<40 | 7)
+	}
 	var nr int64 = -1
 	switch vsym.Param("rd") {
 	case 0:
